@@ -1801,7 +1801,16 @@ void Router::markPolylineConnectorsNeedingReroutingForDeletedObstacle(
         Point start = conn->m_route.ps[0];
         Point end = conn->m_route.ps[conn->m_route.size() - 1];
 
+        // The cost the current route pays: its length (this was never
+        // computed, leaving the distance at zero so that no connector was
+        // ever marked here) plus the segment penalty for each of its bends.
+        conn->calcRouteDist();
         double conndist = conn->m_route_dist;
+        if (conn->m_route.size() > 2)
+        {
+            conndist += routingParameter(segmentPenalty) *
+                    (conn->m_route.size() - 2);
+        }
 
         double estdist;
         double e1, e2;
@@ -1813,6 +1822,10 @@ void Router::markPolylineConnectorsNeedingReroutingForDeletedObstacle(
         {
             const Point& p1 = i->point;
             const Point& p2 = i->shNext->point;
+
+            // The rotated case below overwrites these.
+            start = conn->m_route.ps[0];
+            end = conn->m_route.ps[conn->m_route.size() - 1];
 
             double offy;
             double a;
@@ -1895,6 +1908,11 @@ void Router::markPolylineConnectorsNeedingReroutingForDeletedObstacle(
                 max = std::max(r_p1.x, r_p2.x);
 
             }
+
+            // The reflection below needs the distances of the two route
+            // ends from the edge's line, not their signed offsets.
+            b = fabs(b);
+            d = fabs(d);
 
             double x;
             if ((b + d) == 0)
